@@ -21,8 +21,10 @@ def main():
     sid = f"{prop}-{n}"
     if "--name" in sys.argv:
         sid = sys.argv[sys.argv.index("--name") + 1]
-    src = f"/tmp/seed-out/{prop}/{n}"
-    wt = f"/tmp/wt-{prop}"
+    src_root = sys.argv[sys.argv.index("--src") + 1] if "--src" in sys.argv else "/tmp/seed-out"
+    wt_prefix = sys.argv[sys.argv.index("--wt") + 1] if "--wt" in sys.argv else "/tmp/wt-"
+    src = f"{src_root}/{prop}/{n}"
+    wt = f"{wt_prefix}{prop}"
     meta = json.load(open(os.path.join(src, "meta.json")))
     patch = os.path.join(src, "patch.diff")
     demo = os.path.join(src, "demo.rs")
